@@ -66,7 +66,13 @@ func genericStruct(r *rng.R, sd *gtext.StructDef) *wv.V {
 				wt = f.T.Code()
 			}
 		}
-		v.Fields = append(v.Fields, wv.Field{ID: id, V: wv.Gen(r, wt, cfg, 0)})
+		x := wv.Gen(r, wt, cfg, 0)
+		if r.Chance(1, 10) {
+			// below 40–300 levels of structs, lists, sets and map values: what one path walks through
+			// the other may have to skip
+			x = deepWrap(r, x, 40+r.Intn(261))
+		}
+		v.Fields = append(v.Fields, wv.Field{ID: id, V: x})
 	}
 	return v
 }
@@ -186,7 +192,7 @@ func runC04(c *checker) {
 		cs.run()
 	}
 	c.repoPackages()
-	c.rep.Rule = "per named type of random compiled programs and of the repository's own generated packages: byte strings = {valid reference encodings, encodings under an evolved writer schema, arbitrary wire structs over the declared field ids} and grammar-aware mutations thereof (bit/byte flips, type-byte swaps, length/count edits, insert/delete/duplicate/truncate/append; declared counts ≤ 2^16) × {value path FromWire∘Decode, streaming Decode whole / 1-byte / random incl. zero-length reads / seekable}; Go values valid and broken at one schema rule × {Encode, ToWire+binary.Encode}; oracle: value path ok ⇒ streaming ok with equal value, streaming independent of segmentation and seekability, serialisers both fail or decode to equal values; non-trivial = every case; distinct by (program, op)"
+	c.rep.Rule = "per named type of random compiled programs and of the repository's own generated packages: byte strings = {valid reference encodings, encodings under an evolved writer schema, arbitrary wire structs over the declared field ids, one field in ten below 40–300 levels of containers} and grammar-aware mutations thereof (bit/byte flips, type-byte swaps, length/count edits, insert/delete/duplicate/truncate/append; declared counts ≤ 2^16) × {value path FromWire∘Decode, streaming Decode whole / 1-byte / random incl. zero-length reads / seekable}; Go values valid and broken at one schema rule × {Encode, ToWire+binary.Encode}; oracle: value path ok ⇒ streaming ok with equal value, streaming independent of segmentation and seekability, serialisers both fail or decode to equal values; non-trivial = every case; distinct by (program, op)"
 }
 
 func init() {
